@@ -325,6 +325,8 @@ func unpackAlphabet(full bool) []tarx.Entry {
 		}
 	}
 	es = append(es, otherKinds...)
+	// targets spelled with backslashes: one odd file name on this platform; judged and created as the same text
+	es = append(es, tarx.Entry{Name: "a/up", Kind: "link", Target: "..\\..\\secret"}, tarx.Entry{Name: "y", Kind: "link", Target: "\\..\\secret"})
 	// inconsistent headers: the type flag says one thing, the file-type bits of the mode field another
 	incons := []tarx.Entry{
 		{Name: "y", Kind: "link", Target: "a/up/..", Raw: 040711}, {Name: "a/up", Kind: "link", Target: "..", Raw: 040755},
